@@ -6,8 +6,8 @@ from libertem_blobfinder.base import correlation as bc
 
 PROP = "C08"
 LEAN_MODULE = "BlobfinderModel.Properties.C08"
-GEN_FILES = ["Blocks"]
-FRAGMENTS = ["get_buf_count", "fast_blocks", "full_blocks"]
+GEN_FILES = ["Blocks", "Eval"]
+FRAGMENTS = ["get_buf_count", "fast_blocks", "full_blocks", "wrappers_text"]
 DRIVER = "drvcorr"
 RULE = ("correspondence: the block schedule (start, stop, size of every crop_function call) of the real "
         "process_frame_fast/full for every (n_peaks, buf_count) in the exhaustive range vs the model's "
